@@ -47,9 +47,12 @@ class World:
         self.syntax = project["syntax"]
         self.files = {}      # path -> list of {"segs", "end"}
         self.configured = []
+        self.links = {}      # path of a symbolic link -> path of its target (both relative to the project directory)
         for f in project["files"]:
             self.files[f["path"]] = f["lines"]
             self.configured.append(f["path"])
+            if f.get("symlink_to"):
+                self.links[f["path"]] = f["symlink_to"]
         lines, vidx, vprefix, vsuffix = configsyn.render_config(project["cfg"], self.syntax, project["style"])
         end = {"lf": "\n", "crlf": "\r\n"}[project.get("cfg_regime", "lf")]
         tmpl = []
@@ -115,6 +118,10 @@ class World:
         tree = {}
         for path in self.files:
             tree[path] = self.expected_text(path, state, vtext, initial, override).encode("utf-8")
+            if path in self.links:
+                target = self.links[path]
+                tree[target] = tree[path]
+                tree[path + invoker.LINK_MARK] = os.path.relpath(target, os.path.dirname(path) or ".").encode("utf-8")
         for path, text in self.project.get("extra", {}).items():
             if path not in tree:
                 tree[path] = text.encode("utf-8")
@@ -152,6 +159,19 @@ class World:
                 ctx.violation("C04", "literal_changed", dict(facts, path=path), "file %r is no longer valid UTF-8" % path)
                 ok = False
                 continue
+            if path in self.links:
+                target = self.links[path]
+                link_text = os.path.relpath(target, os.path.dirname(path) or ".").encode("utf-8")
+                if snap.get(path + invoker.LINK_MARK) != link_text:
+                    ctx.violation("C04", "symlink_replaced", dict(facts, path=path),
+                                  "configured file %r was a symbolic link to %r and is now %s" % (
+                                      path, target, "a link to %r" % snap.get(path + invoker.LINK_MARK) if path + invoker.LINK_MARK in snap else "a regular file"))
+                    ok = False
+                if snap.get(target) != data:
+                    ctx.violation("C03", "stale_slot", dict(facts, path=target, region="(link target)", regime=self._regime(path),
+                                                            shared_line=False, is_config=False),
+                                  "the file %r points to, %r, does not hold what %r shows" % (path, target, path))
+                    ok = False
             if have == want:
                 continue
             nv = len(ctx.violations)
@@ -167,7 +187,8 @@ class World:
                 ctx.violation("C04", "unconfigured_file_written", dict(facts, path=path),
                               "file %r is not named in the configuration but changed" % path)
                 ok = False
-        known = set(self.files) | set(self.project.get("extra", {}))
+        known = set(self.files) | set(self.project.get("extra", {})) | set(self.links.values()) | \
+            set(p + invoker.LINK_MARK for p in self.links)
         for path in snap:
             if path not in known and not path.endswith((".sh",)):
                 ctx.violation("C04", "unconfigured_file_written", dict(facts, path=path), "file %r appeared" % path)
